@@ -1,10 +1,11 @@
-\* thorough tier: three threads, every component
+\* thorough tier: three threads on the components with once / frozen / rw guards, waitgroup, collector and queue
+\* (deque and set with three threads do not finish in the budget: two threads only, MC.cfg)
 SPECIFICATION Spec
 CONSTANTS
   Threads = {"t1", "t2", "t3"}
   Fixed = {"queue-distributor-len", "set-producer-lock", "set-equal-other", "collector-resolve-copy"}
   JudgeHandedOut = FALSE
-  OnlyComps = {}
+  OnlyComps = {"once", "pool", "accessors.rw", "accessors", "wrap.Future.Limit", "wrap.Worker.Once", "wrap.Operation.Lock", "synchronized", "collector", "waitgroup", "queue"}
   EmitObligations = FALSE
 INVARIANTS TypeOK Lockset HelperGuard NoConcurrentConflict Balanced
 CHECK_DEADLOCK FALSE
